@@ -11,6 +11,18 @@ the loop and closes the connection.
 `avail` is the interface with the pool: the pool hands the connection to a request only when
 it is fresh or was put back (`H1Pool`: a connection is idle-listed or delivered, never both).
 Ops outside that protocol (`start` while not available) are ignored.
+
+The peer's side of the byte stream is the ghost `wire`: complete responses that have arrived and
+were not read yet, each labelled with the request the peer meant it for (`some r`: the answer to
+the oldest unanswered request `r`; `none`: unsolicited bytes — a duplicated response, a response
+nobody asked for, garbage).  `readHead` consumes the head of the wire and records in `got` which
+label went to which request.  At the top of `readLoop`, `Peek` returning with
+`numExpectedResponses == 0` (`peekIdle`: bytes nobody asked for; `peekFail`: EOF / error) ends in
+`readLoopPeekFailLocked`: the connection is closed ("Unsolicited response received on idle HTTP
+channel"), the bytes reach no caller.  The ghost `tainted` records the two situations no client
+can repair: unsolicited bytes arriving while a response head is awaited, and the pool handing the
+connection out after unsolicited bytes arrived but before the read loop saw them (a race that
+exists in net/http as well).
 -/
 namespace Req.Pool.Pairing
 
@@ -39,6 +51,10 @@ structure St where
   phase : Phase := .peeking
   avail : Bool := true          -- the pool may hand the connection to a request
   log : List Ev := []           -- newest first
+  wire : List (Option Nat) := []   -- ghost: responses arrived and unread, labelled by the peer's intent
+  answered : Nat := 0              -- ghost: how many of `started` the peer has answered
+  got : List (Nat × Option Nat) := []  -- ghost: (request, label of the response it was given)
+  tainted : Bool := false          -- ghost: unsolicited bytes got in front of an awaited response head
 deriving Repr
 
 inductive Op where
@@ -49,22 +65,29 @@ inductive Op where
   | readHead (hasBody keep wrote accept : Bool)
   /-- the caller finished with the body: read to EOF (`eof`) or closed early / cancelled -/
   | bodyDone (eof wrote accept : Bool)
-  /-- the peer closed the idle connection (`readLoopPeekFailLocked`) -/
+  /-- the peer closed the idle connection (`readLoopPeekFailLocked(err)`) -/
   | peekFail
+  /-- the peer answers the oldest request it has not answered yet -/
+  | peerAnswer
+  /-- unsolicited bytes from the peer (duplicate / unrequested response, garbage) -/
+  | peerExtra
+  /-- top of readLoop: `Peek` returned bytes while `numExpectedResponses == 0` -/
+  | peekIdle
 deriving DecidableEq, Repr
 
 def step (s : St) : Op → St
   | .start r =>
     if s.avail && s.phase == .peeking then
       { s with avail := false, numExpected := s.numExpected + 1, reqch := s.reqch ++ [r],
-               started := s.started ++ [r], log := .started r :: s.log }
+               started := s.started ++ [r], log := .started r :: s.log,
+               tainted := s.tainted || !s.wire.isEmpty }
     else s
   | .readHead hasBody keep wrote accept =>
-    match s.phase, s.reqch with
-    | .peeking, r :: rest =>
+    match s.phase, s.reqch, s.wire with
+    | .peeking, r :: rest, l :: wrest =>
       if s.numExpected = 0 then s else
       let s1 := { s with reqch := rest, pairs := (r, s.reads) :: s.pairs, reads := s.reads + 1,
-                         numExpected := s.numExpected - 1 }
+                         numExpected := s.numExpected - 1, wire := wrest, got := (r, l) :: s.got }
       if hasBody then
         { s1 with phase := .body r keep, log := .head r s.reads true :: s.log }
       else
@@ -76,7 +99,7 @@ def step (s : St) : Op → St
             { s2 with avail := true, log := .head r s.reads false :: .put :: s.log }
           else { s2 with phase := .closed, log := .close :: .head r s.reads false :: .putRefused :: s.log }
         else { s2 with phase := .closed, log := .close :: .head r s.reads false :: s.log }
-    | _, _ => s
+    | _, _, _ => s
   | .bodyDone eof wrote accept =>
     match s.phase with
     | .body r keep =>
@@ -90,6 +113,19 @@ def step (s : St) : Op → St
     | _ => s
   | .peekFail =>
     if s.phase == .peeking && s.numExpected == 0 then
+      { s with phase := .closed, avail := false, log := .close :: s.log }
+    else s
+  | .peerAnswer =>
+    match s.started[s.answered]? with
+    | some r => { s with wire := s.wire ++ [some r], answered := s.answered + 1 }
+    | none => s
+  | .peerExtra =>
+    if s.phase == .closed then s
+    else { s with wire := s.wire ++ [none],
+                  tainted := s.tainted || (s.phase == .peeking && s.numExpected != 0) }
+  | .peekIdle =>
+    -- `if pc.numExpectedResponses == 0 { pc.readLoopPeekFailLocked(err); return }` with err == nil
+    if s.phase == .peeking && s.numExpected == 0 && !s.wire.isEmpty then
       { s with phase := .closed, avail := false, log := .close :: s.log }
     else s
 
